@@ -189,10 +189,15 @@ def main():
                 seen[rel] = seen.get(rel, 0) + 1
     else:
         sample = allc[:n]
-    print("candidates: %d, sampled: %d" % (len(allc), len(sample)), flush=True)
+    only = opt("--only-idx", None)
+    jobs_list = [(i, rel, path, op, seed, with_tests) for i, (rel, path, op) in enumerate(sample)]
+    if only:
+        keep = {int(x) for x in only.split(",")}
+        jobs_list = [j for j in jobs_list if j[0] in keep]
+    print("candidates: %d, sampled: %d, running: %d" % (len(allc), len(sample), len(jobs_list)), flush=True)
     res = []
     with ThreadPoolExecutor(max_workers=jobs) as ex:
-        for rec in ex.map(run_one, [(i, rel, path, op, seed, with_tests) for i, (rel, path, op) in enumerate(sample)]):
+        for rec in ex.map(run_one, jobs_list):
             res.append(rec)
             print(json.dumps(rec), flush=True)
             json.dump({"candidates": len(allc), "results": res}, open(out, "w"), indent=1)
